@@ -4710,12 +4710,13 @@ where
                 )
               })
           }
-          _ => Some(format!(
-            "expected value {} {}, got {:?}",
-            self.state.ctrl.unwrap(),
-            t,
-            b
-          )),
+          _ => {
+            if let Some(ctrl) = self.state.ctrl {
+              Some(format!("expected value {} {}, got {:?}", ctrl, t, b))
+            } else {
+              Some(format!("expected value {}, got {:?}", t, b))
+            }
+          }
         },
         #[cfg(feature = "additional-controls")]
         token::Value::BYTE(bv) => match &self.state.ctrl {
